@@ -427,4 +427,10 @@ def rule_transitions_only(ck):
     rule_transitions(ck)
 
 
-RULES = [rule_transitions_only, rule_flush, rule_gaps, rule_columns, rule_dispatch]
+def rule_dialect(ck):
+    from . import c14
+    ck.clause('D4 (shared C14-D1 dialect)')
+    c14.rule_dialect(ck)
+
+
+RULES = [rule_dialect, rule_transitions_only, rule_flush, rule_gaps, rule_columns, rule_dispatch]
